@@ -492,9 +492,9 @@ def check_property(prop_id, prop, tier, seed, only=None, jobs=None):
         results = []
         with ThreadPoolExecutor(max_workers=njobs) as ex:
             futs = {ex.submit(run_instance, src, t0dir, scratch, i, prop): i for i in insts}
-            for fut in futs:
-                pass
-            for fut, inst in futs.items():
+            from concurrent.futures import as_completed
+            for fut in as_completed(list(futs)):
+                inst = futs[fut]
                 res = fut.result()
                 res["inst"] = inst
                 results.append(res)
